@@ -217,6 +217,10 @@ def _job(a):
             spin = "width-loop" if "do_code_width" in tail else ("newline-loop" if "do_blank_lines" in tail else "loop:" + passes[-1])
         else:
             spin = passes[-1] if passes else "tokenize"
+            # slow or stuck?  the same run with nine times the budget decides (a loaded machine must not raise an alarm)
+            rc3, so3, se3 = sh([unc, "-c", cfg, "-q", "-l", lang, "-f", src], cwd=tmp, timeout=90)
+            if rc3 != -999:
+                rc, so, se, spin = rc3, so3, se3, ""
     os.unlink(cfg)
     ev = {"id": "%s|%s" % (os.path.basename(src), cfgname), "c1": 0, "m1": m1, "status": rc, "c2": 0, "m2": "", "spin": spin}
     if rc == 0:
